@@ -20,6 +20,10 @@ import (
 	"github.com/Ptt-official-app/go-pttbbs/api"
 )
 
+// pairTolerance: the tokens of a pair are created back to back in one request; the expiry distance is all that
+// identifies a pair, so tokens further apart than this belong to different sessions.
+const pairTolerance = 2
+
 var kindName = map[byte]string{'a': "access", 'r': "refresh", 'e': "e-mail"}
 var kindIdx = map[byte]int{'a': 0, 'r': 1, 'e': 2}
 
@@ -209,9 +213,10 @@ func judgeRefresh(o *outcome, nf int, hraw string, hv seen, rraw string, rv seen
 	// a matching pair: issued together (expiry distance = difference of the two lifetimes, up to the tolerance),
 	// and the refresh token's client is the caller's or the access token's
 	if isHS(hv) && isHS(rv) && hv.claims[2].kind == 'n' && rv.claims[2].kind == 'n' {
+		// the property's own tolerance (pairTolerance), NOT the server's constant: two tokens created back to back
 		d := (rv.claims[2].fl - hv.claims[2].fl) - int64(api.REFRESH_JWT_TOKEN_EXPIRE_TS-api.JWT_TOKEN_EXPIRE_TS)
-		if d > api.EPSILON_EXPIRE_TS+1 || d < -api.EPSILON_EXPIRE_TS-1 {
-			bad(fmt.Sprintf("the expiry distance of the two is off by %d s", d))
+		if d > pairTolerance || d < -pairTolerance {
+			bad(fmt.Sprintf("the two tokens were issued %d s apart (two different sessions): the access token expires at %s, the refresh token at %s", d, hv.claims[2].word(now), rv.claims[2].word(now)))
 		}
 	}
 	if rc, ok := strClaim(rv.claims[0]); ok {
